@@ -134,6 +134,7 @@ fn hash_rule(kind: u8, n: usize) {
     cover!(outcome == 0, "dissatisfied");
     cover!(outcome == 1, "satisfied");
     cover!(outcome == 2 && is_push, "wrong length");
+    cover!(outcome == 2 && !is_push, "boolean or missing top element");
 }
 
 macro_rules! hr {
